@@ -56,6 +56,8 @@ def run_case(desc, ctx):
             cfg["lineup"].insert(int(rng.integers(0, len(cfg["lineup"]) + 1)), G.gen_sampler_desc(rng, k, batch_size=1))
         else:
             cfg["lineup"].insert(int(rng.integers(1, len(cfg["lineup"]) + 1)), G.gen_sampler_desc(rng, k, batch_size=1))
+    if any(d["kind"] in ("CORS", "ParticleSwarm", "GaussianProcess") for d in cfg["lineup"]) and i % 2:
+        cfg["space"] = G.gen_space(rng, dims=cfg["P"], fine=True)   # continuous-state samplers: let small state differences reach the grid
     L = len(cfg["lineup"])
     small = i % 2 == 0
     n = int(rng.integers(2, 5)) if small else int(rng.integers(5, 9 if desc["tier"] == "quick" else 11))
